@@ -368,6 +368,74 @@ def rejection_rules():
     return out
 
 
+def rule_oracle(target, operands):
+    """The three rejection rules, restated from the property (independent of Assignment.__post_init__):
+    returns the set of rules an assignment violates.  ``target``/``operands``: (name, index tuple)."""
+    bad = set()
+    names = {target[0]} | {n for n, _ in operands}
+    if any(n == target[0] for n, _ in operands):
+        bad.add("MutatingAssignmentError")
+    orders = {}
+    for n, idx in operands:
+        orders.setdefault(n, set()).add(len(idx))
+    if any(len(v) > 1 for v in orders.values()):
+        bad.add("InconsistentDimensionsError")
+    index_names = set(target[1])
+    for _, idx in operands:
+        index_names |= set(idx)
+    if names & index_names:
+        bad.add("NameConflictError")
+    return bad
+
+
+def rule_sweep(stride, offset):
+    """Every assignment 'T(..) = X(..) op Y(..) [op Z(..)]' over a small alphabet in which tensor
+    names and index names overlap; the parser's verdict must agree with the oracle: accepted iff no
+    rule is violated, and a rejection must be one of the violated rules (finite, concrete)."""
+    import itertools
+
+    from tensora.expression import parse_assignment
+
+    tnames = ["A", "B", "C"]
+    inames = ["i", "j", "A", "C"]
+    refs = []
+    for n in tnames:
+        refs.append((n, ()))
+        for a in inames:
+            refs.append((n, (a,)))
+        for a, b in [("i", "j"), ("j", "A"), ("C", "i")]:
+            refs.append((n, (a, b)))
+    def text(r):
+        return f"{r[0]}({','.join(r[1])})"
+
+    n = 0
+    bad = []
+    k = 0
+    for tgt in refs:
+        for ops in itertools.chain(itertools.product(refs, repeat=2), ):
+            k += 1
+            if k % stride != offset % stride:
+                continue
+            for extra in (None, refs[(k // stride) % len(refs)]):
+                operands = list(ops) + ([extra] if extra else [])
+                s = f"{text(tgt)} = " + " + ".join(text(o) for o in operands)
+                n += 1
+                want = rule_oracle(tgt, operands)
+                r = parse_assignment(s)
+                if isinstance(r, Success):
+                    if want:
+                        bad.append({"text": s, "why": f"accepted although it violates {sorted(want)}"})
+                else:
+                    got = type(r.failure()).__name__
+                    if not want:
+                        bad.append({"text": s, "why": f"valid assignment rejected with {got}"})
+                    elif got not in want:
+                        bad.append({"text": s, "why": f"rejected with {got}, expected one of {sorted(want)}"})
+                if len(bad) > 20:
+                    return n, bad
+    return n, bad
+
+
 def format_roundtrip(max_order):
     """Format.deparse -> parse_format == identity (finite enumeration, concrete)."""
     from tensora.format import Format, Mode, parse_format
@@ -421,6 +489,9 @@ def run(tier):
     for r in rules:
         if not r["ok"]:
             rep.violation({"name": r["text"], "kind": "rejection-rule"}, {"property": "C12", "part": "rules", **r})
+    n_rules, rbad = rule_sweep(7 if tier == "quick" else 1, seed)
+    for b in rbad:
+        rep.violation({"name": b["text"], "kind": "rejection-rule", "why": b["why"]}, {"property": "C12", "part": "rules", **b})
     nf, fbad = format_roundtrip(4)
     for b in fbad:
         rep.violation({"name": f"format {b}", "kind": "format-roundtrip"}, {"property": "C12", "part": "format", "format": b})
@@ -449,6 +520,7 @@ def run(tier):
         "samples": [next(iter(sentences(4))), "T(i) = (a(i) - b(i)) * (c(i) - d(i))", sp["counterexamples"][:2]],
         "spelling_queries": sp["queries"], "spelling_counterexamples": sp["counterexamples"], "live_patterns": sp["patterns"],
         "sentences": sent, "deparse_trees": dep, "formats_round_tripped": nf, "concrete_rule_cases": rules,
+        "rule_sweep_assignments": n_rules,
         "known_findings_met": [k["id"] for k in rep.known],
         "functions_encoded": ["TensorExpressionParsers.floating_point/integer/name regexes (live objects)", "parse_assignment",
                               "Assignment.deparse / Add.deparse / Subtract.deparse / Multiply.deparse", "Format.deparse / parse_format"],
